@@ -229,8 +229,8 @@ def f64_accepts(chars):
     return z3.simplify(z3.Or(*alts))
 
 
-def int_parse(chars, radix, bits=64):
-    """(valid, fits, value) for iN::from_str_radix over a list of BV32 char terms"""
+def int_parse(chars, radix, bits=64, signed=True):
+    """(valid, fits, value) for iN/uN::from_str_radix over a list of BV32 char terms"""
     n = len(chars)
     if n == 0:
         return z3.BoolVal(False), z3.BoolVal(False), bv(0, bits)
@@ -281,6 +281,13 @@ def int_parse(chars, radix, bits=64):
     valid = z3.If(signed_form, v_rest, v_all)
     # the parsed magnitude fits iff it is <= MAX (or <= 2^(bits-1) for a negative literal): compared digit-wise, no wide arithmetic;
     # the value is accumulated in wrapping `bits`-bit arithmetic, which is exact whenever it fits
+    if not signed:
+        # unsigned: a leading '+' is accepted, a leading '-' is not (std: "-" is an invalid digit for unsigned types)
+        valid = z3.If(plus, v_rest, z3.And(z3.Not(neg), v_all))
+        hi = 2 ** bits - 1
+        fits = z3.If(plus, lex_le(d_rest, hi) if d_rest else z3.BoolVal(False), lex_le(d_all, hi))
+        val = z3.If(plus, a_rest, a_all)
+        return z3.simplify(valid), z3.simplify(fits), z3.simplify(val)
     fits = z3.If(neg, lex_le(d_rest, 2 ** (bits - 1)) if d_rest else z3.BoolVal(False),
                  z3.If(plus, lex_le(d_rest, 2 ** (bits - 1) - 1) if d_rest else z3.BoolVal(False), lex_le(d_all, 2 ** (bits - 1) - 1)))
     val = z3.If(neg, -a_rest, z3.If(plus, a_rest, a_all))
@@ -1177,6 +1184,21 @@ def model(ex, st, c, args):
             return some(Ref(r.cell, list(r.path) + [('index', 0)])) if v.items else none()
         if f == 'is_empty':
             return z3.BoolVal(len(v.items) == 0)
+        if f == 'reverse':
+            v.items.reverse()
+            return mkunit()
+        if f == 'swap':
+            i_, j_ = ex.concrete_int(args[1]), ex.concrete_int(args[2])
+            if i_ >= len(v.items) or j_ >= len(v.items):
+                raise Panic('swap index out of bounds')
+            v.items[i_], v.items[j_] = v.items[j_], v.items[i_]
+            return mkunit()
+        if f in ('split_first', 'split_last'):
+            if not v.items:
+                return none()
+            if f == 'split_first':
+                return some(Adt('tuple', 0, [Ref(r.cell, list(r.path) + [('index', 0)]), Ref(st.new_cell(VecV(v.items[1:])), [])]))
+            return some(Adt('tuple', 0, [Ref(r.cell, list(r.path) + [('index', len(v.items) - 1)]), Ref(st.new_cell(VecV(v.items[:-1])), [])]))
         if f == 'get':
             i = args[1]
             n = len(v.items)
@@ -1200,6 +1222,19 @@ def model(ex, st, c, args):
         return OwnIter(args[0].items)
     if re.fullmatch(r'<&mut .* as IntoIterator>::into_iter', c):
         return args[0]
+    if re.fullmatch(r'<.* as IntoIterator>::into_iter', c) and isinstance(args[0], (IterV, OwnIter, CharsV, PeekV, AdaptV)):
+        return args[0]
+    if re.fullmatch(r'<HashMap<.*> as Clone>::clone_from', c):
+        dst = D(args[0])
+        src = copy_value(D(args[1]))
+        dst.keys[:] = src.keys
+        dst.vals[:] = src.vals
+        return mkunit()
+    if re.fullmatch(r'<(Vec<.*>|std::string::String) as Clone>::clone_from', c):
+        dst = D(args[0])
+        src = copy_value(D(args[1]))
+        dst.items[:] = src.items
+        return mkunit()
     if re.fullmatch(r'<Vec<.*> as Extend<.*>>::extend', c):
         v = D(args[0])
         src = args[1]
@@ -1215,6 +1250,8 @@ def model(ex, st, c, args):
         return OwnIter([])
 
     # ----- iterators
+    if c.endswith(' as Iterator>::by_ref'):
+        return args[0]
     if c.endswith(' as Iterator>::peekable'):
         return PeekV(args[0])
     if c in ('__iter_next',) or re.fullmatch(r'<.* as Iterator>::next', c):
@@ -1445,6 +1482,8 @@ def model(ex, st, c, args):
         pat = D(args[1])
         if isinstance(pat, Int):
             return z3.Or(*[x.t == pat.t for x in s.items]) if s.items else z3.BoolVal(False)
+        if isinstance(pat, VecV) and all(isinstance(p_, Int) for p_ in pat.items):
+            return z3.Or(*[x.t == p_.t for x in s.items for p_ in pat.items]) if (s.items and pat.items) else z3.BoolVal(False)
         if isinstance(pat, SStr):
             n = len(pat.items)
             alts = [z3.And(*[x.t == y.t for x, y in zip(s.items[i:i + n], pat.items)]) if n else z3.BoolVal(True) for i in range(0, len(s.items) - n + 1)]
@@ -1607,9 +1646,11 @@ def model(ex, st, c, args):
             return parse_f64_model(ex, st, s)
         if 'bool' in c:
             return parse_bool_model(ex, st, s)
-    if c == 'core::num::<impl i64>::from_str_radix':
+    mm = re.fullmatch(r'core::num::<impl (i64|u64|usize|i32|u32|u8|i8|u16|i16)>::from_str_radix', c)
+    if mm:
         s = to_sstr(ex, args[0])
-        return parse_int_model(ex, st, s, ex.concrete_int(args[1]))
+        ty = mm.group(1)
+        return parse_int_model(ex, st, s, ex.concrete_int(args[1]), INT_BITS[ty], ty[0] == 'i')
 
     # ----- fmt
     if c == 'Arguments::from_str':
@@ -2102,16 +2143,16 @@ def parse_fmt_template(tb, args):
     return pieces
 
 
-def parse_int_model(ex, st, s, radix):
+def parse_int_model(ex, st, s, radix, bits=64, signed=True):
     if not s.is_plain():
         raise Unsupported('integer parse of a string with an opaque segment')
     chars = [c.t for c in s.items]
-    valid, fits, val = int_parse(chars, radix)
+    valid, fits, val = int_parse(chars, radix, bits, signed)
     okc = z3.simplify(z3.And(valid, fits))
     t = ex.branch(st, [(okc, 'ok'), (z3.Not(okc), 'err')])
     if t == 'err':
         return err(Opaque('ParseIntError', ()))
-    return ok(Int(val, True))
+    return ok(Int(val, signed))
 
 
 def parse_f64_value(ex, s):
@@ -2169,5 +2210,7 @@ def model_raw(ex, st, raw, args):
             return parse_int_model(ex, st, s, 10)
         if ty == 'bool':
             return parse_bool_model(ex, st, s)
+        if ty in INT_BITS and ty != 'char':
+            return parse_int_model(ex, st, s, 10, INT_BITS[ty], ty[0] == 'i')
         raise Unsupported('parse::<%s>' % ty)
     return NOTFOUND
